@@ -469,8 +469,12 @@ func (r *runner) run(steps []step) int {
 			r.viol("hexary:len", "%s: Len()=%d, spec says %d", at, r.acc.Len(), s.Len)
 			return i
 		}
-		if !r.checkHeader(at, r.acc.GetMerkleHeader(), s) {
-			return i
+		// GetMerkleHeader is read when the spec says so (action "header") and at the end -- not behind the spec's back after
+		// every call: a header read at every length would hide anything that depends on which lengths were read
+		if s.Op == "header" || i == len(steps)-1 {
+			if !r.checkHeader(at, r.acc.GetMerkleHeader(), s) {
+				return i
+			}
 		}
 		// the persisted record: a second accumulator opened on the same buckets (SetLen(0) leaves the record behind)
 		probe, err := hexary.NewAccumulator(r.tb, r.ab, "")
